@@ -91,6 +91,10 @@ class TagValidator:
         """
         validation_issues = []
         tag_names = original_tag.org_base_tag.split("/")
+        # The namespace prefix is not part of the first node name (a prefix starting with a capital hid a lower-case name)
+        namespace = original_tag.schema_namespace
+        if namespace and tag_names[0].startswith(namespace):
+            tag_names[0] = tag_names[0][len(namespace):]
         for tag_name in tag_names:
             correct_tag_name = tag_name.capitalize()
             if tag_name != correct_tag_name and not re.search(self.CAMEL_CASE_EXPRESSION, tag_name):
